@@ -42,6 +42,8 @@ def _mask_test(test):
 def _eval(expr, env):
     """Provenance of an expression: 'FREE' | 'FULL' | 'OTHER' | None"""
     if isinstance(expr, ast.Name):
+        if expr.id in env.get('@vals', ()):
+            return env.get(VALS)        # a local naming the value buffer
         return env.get(expr.id)
     s = U(expr)
     if s == VALS:
@@ -100,11 +102,30 @@ def _walk(stmts, env, masked, field, sites, fn):
         if isinstance(s, ast.Assign) and len(s.targets) == 1:
             t = s.targets[0]
             if isinstance(t, ast.Name):
+                # locals that name the buffer itself or the free-entry mask
+                env['@vals'] = frozenset(env.get('@vals', ())) - {t.id}
+                env['@free'] = frozenset(env.get('@free', ())) - {t.id}
+                if U(s.value) == VALS or (isinstance(s.value, ast.Name)
+                                          and s.value.id in env['@vals']):
+                    env['@vals'] = env['@vals'] | {t.id}
+                    env.pop(t.id, None)
+                    continue
+                if U(s.value) == NOTMASK or (isinstance(
+                        s.value, ast.Name) and s.value.id in env['@free']):
+                    env['@free'] = env['@free'] | {t.id}
+                    env.pop(t.id, None)
+                    continue
                 v = _eval(s.value, env)
                 env[t.id] = v
-            elif isinstance(t, ast.Subscript) and U(t.value) == VALS:
+            elif isinstance(t, ast.Subscript) and (
+                    U(t.value) == VALS or (isinstance(t.value, ast.Name)
+                                           and t.value.id in env.get(
+                                               '@vals', ()))):
                 rhs = _eval(s.value, env)
-                if U(t.slice) == NOTMASK and rhs == 'FREE':
+                free_idx = U(t.slice) == NOTMASK or (isinstance(
+                    t.slice, ast.Name) and t.slice.id in env.get(
+                        '@free', ()))
+                if free_idx and rhs == 'FREE':
                     env[VALS] = 'FULL'
                 else:
                     env[VALS] = 'OTHER'
@@ -256,17 +277,59 @@ def r08_2(ctx, repo):
         if fn is None:
             continue
         construct = '%s.compute_sensitivities' % cls
+        # locals naming ~mask, and selection vectors assembled from it
+        free_names, sel_names = set(), {}
+
+        def is_notmask(e):
+            return U(e) == NOTMASK or (isinstance(e, ast.Name)
+                                       and e.id in free_names)
+        for a in sorted((x for x in ast.walk(fn)
+                         if isinstance(x, ast.Assign)),
+                        key=lambda x: x.lineno):
+            if len(a.targets) != 1 or not isinstance(a.targets[0], ast.Name):
+                continue
+            v = a.value
+            if is_notmask(v):
+                free_names.add(a.targets[0].id)
+            elif isinstance(v, ast.Call) and U(v.func) in (
+                    'np.concatenate', 'np.hstack') and v.args and isinstance(
+                    v.args[0], (ast.Tuple, ast.List)):
+                parts = v.args[0].elts
+                if any(is_notmask(p_) for p_ in parts):
+                    # the wrapped model's own parameters come last in the
+                    # gradient: ~mask must be the last block
+                    sel_names[a.targets[0].id] = (
+                        is_notmask(parts[-1]) and not any(
+                            is_notmask(p_) for p_ in parts[:-1]), a)
         filt = [n for n in ast.walk(fn) if isinstance(n, ast.Subscript)
-                and MASK in U(n.slice)]
+                and isinstance(n.ctx, ast.Load)
+                and (MASK in U(n.slice) or (isinstance(n.slice, ast.Name)
+                                            and n.slice.id in free_names))]
         stores = [n for n in ast.walk(fn) if isinstance(n, ast.Assign)
                   and isinstance(n.targets[0], ast.Subscript)
-                  and MASK in U(n.value)
-                  and U(n.targets[0].value) != VALS]
+                  and (MASK in U(n.value) or is_notmask(n.value))
+                  and U(n.targets[0].value) != VALS
+                  and not (isinstance(n.targets[0].value, ast.Name)
+                           and n.targets[0].value.id in free_names)]
         n_ok = 0
+        for name, (ok_, a) in sorted(sel_names.items()):
+            if ok_:
+                n_ok += 1
+                ctx.ok(rule, repo.loc(a, cls, fn.name), construct,
+                       'selection `%s` = [all other entries | ~mask]'
+                       % norm_stmt(a)[:60])
+            else:
+                ctx.violation(
+                    rule, repo.loc(a, cls, fn.name), construct,
+                    'selection block',
+                    '`%s` does not place ~mask on the last n_parameters '
+                    'entries of the selection: the free/fixed flags are '
+                    'not aligned with the wrapped model\'s own parameters at '
+                    'the end of the gradient' % norm_stmt(a)[:70])
         for n in filt:
             if U(n.value) == VALS:
                 continue
-            if U(n.slice) == NOTMASK:
+            if is_notmask(n.slice):
                 n_ok += 1
                 ctx.ok(rule, repo.loc(n, cls, fn.name), construct,
                        '`%s` keeps the free parameters\' sensitivities'
@@ -279,7 +342,7 @@ def r08_2(ctx, repo):
                     '`~self._fixed_params_mask`: the entries of the fixed '
                     'parameters are returned' % U(n.slice))
         for n in stores:
-            if U(n.value) == NOTMASK:
+            if is_notmask(n.value):
                 w = _store_width(fn, n)
                 if w is not None and w[0] is False:
                     ctx.violation(
